@@ -41,7 +41,7 @@ DECLINED = [
 ]
 
 SHARED = ("_renames", "_defaults", "_bound")
-MUTATING = {"update", "setdefault", "pop", "popitem", "clear", "__setitem__", "__delitem__"}
+MUTATING = {"update", "setdefault", "pop", "popitem", "clear", "__setitem__", "__delitem__", "add", "append", "extend", "insert", "remove", "discard", "sort", "reverse"}
 STATE = ("_defaults", "_bound", "_renames", "mapspec")
 
 
